@@ -2,6 +2,8 @@ import SkoolVerif.Proofs.C02Data
 import SkoolVerif.Proofs.C02Jump
 import SkoolVerif.Proofs.C02Case
 import SkoolVerif.Proofs.C02Tokens
+import SkoolVerif.Proofs.AsmInstrConverse
+import SkoolVerif.Proofs.AsmInstrVariant
 /-!
 C02 — assembler and disassembler are mutual inverses.  Property theorems only;
 helper lemmas live in `SkoolVerif/Proofs/C02*.lean`.
@@ -18,9 +20,19 @@ Models (hand-written, tied to /repo by the correspondence check
 Text is a list of code points.  All theorems are for unbounded inputs (every
 value, every byte list, every address) and every configuration
 (`asm_hex`, `asm_lower`) and base (`b c d h m n`).
+
+Instruction level (last section): the opcode tables of real `Disassembler`
+objects are dumped on every run into `Gen/C02Tables.lean`
+(`translate/gen_c02.py`); `Model/DisText.lean` (with `Model/InstrDecode.lean`)
+models one `Disassembler.disassemble` step down to the text, and
+`Model/AsmInstr.lean` models `Assembler._assemble` with every encoder.
+`instruction_roundtrip` holds for every slot of every table, every
+additional-opcode set, every operand byte, address, base pair, case and number
+format: a kernel-evaluated slot check (`Proofs/AsmInstrChk`) + one soundness
+lemma per encoder rule (`Proofs/AsmInstrRules.lean`).
 -/
 namespace C02
-open OpText AsmEval OperandSpec C02L
+open OpText AsmEval OperandSpec C02L AsmInstr InstrDec DisText AsmInstrL
 
 /-! ## Layer B — operand text -/
 
@@ -247,6 +259,131 @@ theorem byte_operand_pipeline (cfg : Cfg) (mn op1 : Txt) (hmn : PlainTxt mn) (ho
   · have := parseExpr_numStr { cfg with lower := false } 1 (Or.inl rfl) v (by simpa using hv) base
     simpa [parseByte] using this
 
+/-! ## Instruction level: every slot of the regenerated tables -/
+
+/-- The model of `Disassembler.disassemble` decodes an instruction object at every address of every memory
+under every configuration (no `KeyError`, no format error). -/
+theorem disassembler_total (c : DCfg) (hex : Bool) (b1 b2 : Base) (mem : Mem) (hmem : ∀ i, mem i < 256) (a : Nat) :
+    ∃ d, disText C02Gen.tables c hex b1 b2 mem a = .ok d := by
+  obtain ⟨so, _, h, _⟩ := disText_total c hex b1 b2 mem hmem a
+  exact ⟨_, h⟩
+
+/-- **Instruction round trip** (part 1 of the property, at instruction level).  Take any memory `mem`, any
+address `a` — up to 65535, the instruction may wrap around or be cut at the 64K boundary —, any
+configuration of the disassembler: additional-opcode set `c.opts` (all 256 subsets of
+ED63,ED6B,ED70,ED71,IM,NEG,RETN,XYCB), `asm_lower` = `c.lower`, `asm_hex` = `hex`, `wrap` = `c.wrap`, and any
+base indicator (`b1` its first, `b2` its last letter).  Whatever instruction object `d` the disassembler
+makes at `a` — an instruction of any of the seven opcode tables with any operand bytes, a relative jump, or
+one of its DEFB fallbacks — if it is not flagged VARIANT, the assembler turns `d.text` back into exactly
+`d.bytes`.  `hadm`: the negative base `m` is not applied to the operand of `RST n` / `IN A,(n)` /
+`OUT (n),A` ("negative where a signed operand is meaningful": the assembler requires these to be
+non-negative). -/
+theorem instruction_roundtrip (c : DCfg) (hex : Bool) (b1 b2 : Base) (mem : Mem) (hmem : ∀ i, mem i < 256)
+    (a : Nat) (ha : a < 65536) (d : DText) (hd : disText C02Gen.tables c hex b1 b2 mem a = .ok d)
+    (hv : d.variant = 0) (hadm : b1 = .m → nonNegMnemonic d.text = false) :
+    asmInstr d.text a = .ok d.bytes := by
+  unfold disText at hd
+  have hchk := allDis_spec C02Chk.shape_ok C02Chk.all_ok c (hmem a) (hmem ((a + 1) % 65536)) (hmem ((a + 3) % 65536))
+  cases hq : disSym C02Gen.tables c (mem a) (mem ((a + 1) % 65536)) (mem ((a + 3) % 65536)) with
+  | error e => simp [hq] at hd
+  | ok so =>
+    simp only [hq, Except.ok.injEq] at hd
+    subst hd
+    simp only [hq, C02Chk.slotChk] at hchk
+    rw [finishText_variant] at hv
+    exact out_roundtrip _ so hchk hv ⟨⟨hex, c.lower⟩, b1, b2, mem, a⟩ ⟨hmem, ha⟩ (patOk_slotOf mem a ha) c.wrap hadm
+
+/-- … as `Assembler.assemble` returns it (`()` only on failure). -/
+theorem instruction_roundtrip_assemble (c : DCfg) (hex : Bool) (b1 b2 : Base) (mem : Mem) (hmem : ∀ i, mem i < 256)
+    (a : Nat) (ha : a < 65536) (d : DText) (hd : disText C02Gen.tables c hex b1 b2 mem a = .ok d)
+    (hv : d.variant = 0) (hadm : b1 = .m → nonNegMnemonic d.text = false) :
+    assemble d.text a = d.bytes := by
+  simp [assemble, instruction_roundtrip c hex b1 b2 mem hmem a ha d hd hv hadm]
+
+/-- **Variant opcode sequences**: the round trip is through the byte list the disassembler flags, not the
+text.  For every non-empty byte list, the `@bytes=` directive sna2skool writes for it
+(`format_byte(b, DEFAULT_BASE)` joined by commas, decimal or hex, either case) is read back by
+`parse_asm_bytes_directive` as the bytes, and the same list as a DEFB statement assembles to the bytes. -/
+theorem variant_roundtrip (cfg : Cfg) (bs : List Nat) (hb : ∀ b ∈ bs, b < 256) (hne : bs ≠ []) :
+    parseBytesDirective (bytesDirective cfg bs) = some (bs.map Int.ofNat) ∧
+    asmInstr (defbDir cfg false bs [(0, .n)]) 0 = .ok bs :=
+  ⟨bytesDirective_roundtrip cfg bs hb hne, asm_defb cfg bs hb hne 0⟩
+
+/-- The bytes of an instruction object are bytes, and there is at least one (so `variant_roundtrip`
+applies to the byte list of every VARIANT instruction). -/
+theorem instruction_bytes (c : DCfg) (hex : Bool) (b1 b2 : Base) (mem : Mem) (hmem : ∀ i, mem i < 256)
+    (a : Nat) (ha : a < 65536) (d : DText) (hd : disText C02Gen.tables c hex b1 b2 mem a = .ok d)
+    (hfit : a + C02Chk.L (slotAt mem a) ≤ 65536) :
+    d.bytes = bytesAt mem a (C02Chk.L (slotAt mem a)) ∧ d.bytes ≠ [] ∧ ∀ b ∈ d.bytes, b < 256 := by
+  obtain ⟨so, h1, h2, hwf, hnom, h4⟩ := disText_total c hex b1 b2 mem hmem a
+  rw [h2] at hd
+  simp only [Except.ok.injEq] at hd
+  subst hd
+  have hb := finishText_bytes_fit ⟨hex, c.lower⟩ c.wrap b1 b2 mem a so hwf ha (by rw [hnom]; exact hfit)
+  rw [hnom] at hb
+  have hv : (slotAt mem a).valid = true := slotOf_valid (hmem _) (hmem _) (hmem _)
+  have hpos : 1 ≤ C02Chk.L (slotAt mem a) := by
+    have := allSlots_spec C02Chk.lpos_ok _ hv
+    simpa using this
+  refine ⟨hb, ?_, ?_⟩
+  · rw [hb]
+    intro e0
+    have := congrArg List.length e0
+    simp [bytesAt] at this
+    omega
+  · rw [hb]
+    intro b hbm
+    simp only [bytesAt, List.mem_map] at hbm
+    obtain ⟨i, _, rfl⟩ := hbm
+    exact hmem _
+
+/-- **Converse at instruction level, for the texts the disassembler emits** (part 2: assemble → disassemble →
+assemble).  Let `d.text` be any instruction text the disassembler renders (any configuration, any bases)
+for an instruction that lies below the 64K boundary.  The assembler accepts it and produces `bs`; these are
+the bytes at `a`, so disassembling them under ANY other configuration — other additional-opcode set
+(`SLL (IX+1),B` may become a DEFB), other case, other number format, other bases — gives an object `d'` over
+exactly the same bytes, and assembling `d'.text` (or, if `d'` is flagged VARIANT, reading its flagged byte
+list) yields `bs` again. -/
+theorem instruction_converse (c c' : DCfg) (hex hex' : Bool) (b1 b2 b1' b2' : Base) (mem : Mem)
+    (hmem : ∀ i, mem i < 256) (a : Nat) (ha : a < 65536) (hfit : a + C02Chk.L (slotAt mem a) ≤ 65536)
+    (d d' : DText) (hd : disText C02Gen.tables c hex b1 b2 mem a = .ok d)
+    (hd' : disText C02Gen.tables c' hex' b1' b2' mem a = .ok d')
+    (hv : d.variant = 0) (hadm : b1 = .m → nonNegMnemonic d.text = false) :
+    ∃ bs, asmInstr d.text a = .ok bs ∧ d'.bytes = bs ∧
+      (d'.variant = 0 → (b1' = .m → nonNegMnemonic d'.text = false) → asmInstr d'.text a = .ok bs) ∧
+      parseBytesDirective (bytesDirective ⟨hex', c'.lower⟩ d'.bytes) = some (bs.map Int.ofNat) := by
+  obtain ⟨e1, _, _⟩ := instruction_bytes c hex b1 b2 mem hmem a ha d hd hfit
+  obtain ⟨e2, hne, hlt⟩ := instruction_bytes c' hex' b1' b2' mem hmem a ha d' hd' hfit
+  refine ⟨d.bytes, instruction_roundtrip c hex b1 b2 mem hmem a ha d hd hv hadm, by rw [e1, e2], ?_, ?_⟩
+  · intro hv' hadm'
+    rw [e1, ← e2]
+    exact instruction_roundtrip c' hex' b1' b2' mem hmem a ha d' hd' hv' hadm'
+  · rw [e1, ← e2]
+    exact bytesDirective_roundtrip _ _ hlt hne
+
+/-- **Converse for every spelling of the numeric operands** (part 2 for the encoder rules the tables select;
+`_partial`: see below).  Take a mnemonic and operands that the rule table maps to a byte pattern — each
+operand is template text or a `{}` field: a number, `(number)` or `(IX±number)`.  Spell the fields in ANY way
+(`S`) that keeps their shape (first characters) and that the operand parsers evaluate to the values in memory
+— `$1F`, `%101`, `"a"`, `12+3`, `(IX+$0A)`, `(IY-"a")`, any expression.  The assembler then produces exactly
+the bytes it produces for the disassembler's own rendering of these operands — which, by
+`instruction_roundtrip`, are the bytes at `a` the rendering was decoded from.  So: assemble the spelled
+instruction, disassemble the bytes, assemble the result again: the same bytes.
+
+Not covered (hence `_partial`): spellings that change the shape of an operand as the assembler's string
+tests see it (a leading `+`, a bare number in brackets as in `LD B,(5)`, white space inside `(IX + 1)`),
+ignored third operands (`BIT 0,B,C`), and the statement that every text the assembler accepts is of one of
+these forms; for those the converse is established by the e2e check on the real code only. -/
+theorem rule_converse_partial (e : Env) (he : e.Ok) (S : Spelling e) (mn : Txt) (ops : List SOpnd) (sbs : List SB)
+    (h : symAsm mn ops = some sbs)
+    (hnn : mn = t%"IN" ∨ mn = t%"OUT" ∨ mn = t%"RST" → e.b1 ≠ .m)
+    (hjr : mn = t%"JR" ∨ mn = t%"DJNZ" → ∃ t, jrTarget e.a (e.rd 1) = some t) :
+    asmTokens (mn :: ops.map (SOpnd.txtS S)) e.a = asmTokens (mn :: ops.map (SOpnd.txt e)) e.a ∧
+    asmTokens (mn :: ops.map (SOpnd.txtS S)) e.a = .ok (sbs.map (SB.inst e)) := by
+  have h1 := symAsm_spelled e he S mn ops sbs h hnn hjr
+  have h2 := symAsm_sound e he mn ops sbs h hnn hjr
+  exact ⟨by rw [h1, h2], h1⟩
+
 /-! ## Sanity / non-vacuity: concrete values taken from the real tools -/
 
 -- LD A,"A"+$80  (193, base c, hex, lower)
@@ -291,5 +428,71 @@ example : evalInt [] = .otherErr := by decide +kernel
 example : evalInt [40, 51, 41, 37, 49, 48, 49] = .ok 3 := by decide +kernel      -- (3)%101
 example : evalInt [51, 43, 37, 49, 48, 49] = .ok 8 := by decide +kernel          -- 3+%101
 example : evalInt [45, 55, 47, 50] = .ok (-4) := by decide +kernel               -- -7/2 floors
+
+
+/-! ### instruction level: concrete instances (memory = the listed bytes at `a`, wrapping, 0 elsewhere) -/
+
+/-- `bs` at `a` (wrapping at 65536), 0 elsewhere -/
+def memOf (a : Nat) (bs : List Nat) : Mem := fun i => bs.getD ((i + 65536 - a) % 65536) 0
+
+-- LD (IX-128),255 in lower-case hex: `ld (ix-$80),$ff`
+example : (disText C02Gen.tables { opts := 0, lower := true } true .n .n (memOf 32768 [221, 54, 128, 255]) 32768).toOption =
+    some ⟨t%"ld (ix-$80),$ff", [221, 54, 128, 255], 0⟩ := by decide +kernel
+example : asmInstr t%"ld (ix-$80),$ff" 32768 = .ok [221, 54, 128, 255] := by decide +kernel
+-- two-letter base `mc`: displacement negative, byte as a character
+example : (disText C02Gen.tables {} false .m .c (memOf 0 [253, 54, 5, 193]) 0).toOption =
+    some ⟨[76, 68, 32, 40, 73, 89, 43, 45, 50, 53, 49, 41, 44, 34, 65, 34, 43, 49, 50, 56], [253, 54, 5, 193], 0⟩ := by
+  decide +kernel                                                             -- LD (IY+-251),"A"+128
+example : asmInstr [76, 68, 32, 40, 73, 89, 43, 45, 50, 53, 49, 41, 44, 34, 65, 34, 43, 49, 50, 56] 0 =
+    .ok [253, 54, 5, 193] := by decide +kernel
+-- JR at 65535, wrapping: the offset byte is at address 0, the target 65535 itself
+example : (disText C02Gen.tables { wrap := true } false .n .n (memOf 65535 [24, 254]) 65535).toOption =
+    some ⟨t%"JR 65535", [24, 254], 0⟩ := by decide +kernel
+example : asmInstr t%"JR 65535" 65535 = .ok [24, 254] := by decide +kernel
+-- … and with a target beyond 65535 the decoder emits a DEFB, cut at the boundary
+example : (disText C02Gen.tables { wrap := true } false .n .n (memOf 65535 [24, 16]) 65535).toOption =
+    some ⟨t%"DEFB 24", [24], 0⟩ := by decide +kernel
+example : asmInstr t%"JR 17" 65535 = .ok [24, 16] := by decide +kernel      -- the assembler wraps the target
+-- SLL (IY+5),B exists with the XYCB option only (bit 7); without it the four bytes are a DEFB
+example : (disText C02Gen.tables { opts := 128 } false .n .n (memOf 0 [253, 203, 5, 48]) 0).toOption =
+    some ⟨t%"SLL (IY+5),B", [253, 203, 5, 48], 0⟩ := by decide +kernel
+example : (disText C02Gen.tables {} false .n .n (memOf 0 [253, 203, 5, 48]) 0).toOption =
+    some ⟨t%"DEFB 253,203,5,48", [253, 203, 5, 48], 0⟩ := by decide +kernel
+example : asmInstr t%"SLL (IY+5),B" 0 = .ok [253, 203, 5, 48] := by decide +kernel
+-- a VARIANT entry (option NEG, bit 5): the text would assemble to ED 44, the flagged bytes are ED 4C
+example : (disText C02Gen.tables { opts := 32 } true .n .n (memOf 0 [237, 76]) 0).toOption =
+    some ⟨t%"NEG", [237, 76], 1⟩ := by
+  decide +kernel
+example : asmInstr t%"NEG" 0 = .ok [237, 68] := by decide +kernel
+example : bytesDirective ⟨true, false⟩ [237, 76] = t%"$ED,$4C" := by decide +kernel
+example : parseBytesDirective t%"$ED,$4C" = some [237, 76] := by decide +kernel
+-- the excluded case: RST in the negative base is rejected by the assembler (known C01 finding)
+example : (disText C02Gen.tables {} false .m .m (memOf 0 [207]) 0).toOption =
+    some ⟨t%"RST -248", [207], 0⟩ := by decide +kernel
+example : nonNegMnemonic t%"RST -248" = true := by decide +kernel
+example : asmInstr t%"RST -248" 0 = .valErr := by decide +kernel
+-- quirks of the assembler kept by the model
+example : asmInstr t%"LD B,(5)" 0 = .ok [6, 5] := by decide +kernel          -- brackets stripped
+example : asmInstr t%"BIT 0,B,C" 0 = .ok [203, 64] := by decide +kernel       -- third operand ignored
+example : asmInstr t%"RLC (IX+1)," 0 = .ok [221, 203, 1, 6] := by decide +kernel   -- empty operand is falsy
+example : asmInstr t%"NOP 1" 0 = .ok [] := by decide +kernel                  -- returns None
+example : asmInstr t%"LD A" 0 = .otherErr := by decide +kernel                -- TypeError
+example : asmInstr t%"JR PO,5" 0 = .valErr := by decide +kernel               -- no such relative jump (was LD B,B + offset before the fix)
+-- `rule_converse_partial`: the rule table maps `LD A,{byte at 1}` to 3E + that byte, and `$0F+1` is an acceptable
+-- spelling of the byte 16 found there (so `LD A,$0F+1`, `LD A,16` and the bytes 3E 10 all round-trip)
+example : symAsm t%"LD" [.lit t%"A", .hole .numB 0 1] = some [.const 62, .at 1] := by decide +kernel
+example : OpSpelled ⟨⟨false, false⟩, .n, .n, memOf 0 [62, 16], 0⟩ .numB 0 1 t%"$0F+1" := by
+  constructor <;> decide +kernel
+example : asmInstr t%"LD A,$0F+1" 0 = .ok [62, 16] := by decide +kernel
+example : OpSpelled ⟨⟨false, false⟩, .n, .n, memOf 0 [221, 126, 251], 0⟩ .idxX 0 2 t%"(IX-%101)" := by
+  refine ⟨?_, ?_, ?_, ?_⟩ <;> decide +kernel
+example : asmInstr t%"LD A,(IX-%101)" 0 = .ok [221, 126, 251] := by decide +kernel
+-- the hypotheses of `instruction_roundtrip` are satisfiable: every byte of `memOf` is a byte
+example : ∀ i, memOf 0 [253, 203, 5, 48] i < 256 := by
+  intro i; unfold memOf
+  generalize (i + 65536 - 0) % 65536 = k
+  match k with
+  | 0 | 1 | 2 | 3 => decide
+  | n + 4 => simp
 
 end C02
